@@ -797,6 +797,45 @@ fn run_open(spec: &OpenSpec, obs: &mut Obs) -> Result<(), String> {
     if loaded != recorded.len() - n_dead {
         return Err(format!("{loaded} regions loaded, {} valid slots", recorded.len() - n_dead));
     }
+    // "without disturbing the valid ones" also means they stay usable: a length-changing write to every valid
+    // region, flush, reopen - each must come back with its new length and contents (a region bound to the wrong
+    // slot looks fine until its metadata is written again)
+    let mut grown: Vec<(String, Vec<u8>)> = vec![];
+    for (i, rec) in recorded.iter().enumerate() {
+        if dead[i] {
+            continue;
+        }
+        let r = db.get_region(&rec.0).ok_or("region vanished")?;
+        let extra: Vec<u8> = (0..(5 + 3 * i)).map(|k| (k * 7 + i) as u8 | 1).collect();
+        r.write(&extra).map_err(|x| format!("valid slot {i}: append after the open failed: {x}"))?;
+        let mut want = rec.4.clone();
+        want.extend_from_slice(&extra);
+        grown.push((rec.0.clone(), want));
+    }
+    db.flush().map_err(|x| format!("flush after the open: {x}"))?;
+    drop(db);
+    let db = match catch_panic(|| Database::open(&path)) {
+        Err(p) => return Err(format!("second Database::open (after appending to the valid regions of a file with {n_dead} invalid slot(s)) panicked: {p}")),
+        Ok(Err(x)) => return Err(format!("second Database::open (after appending to the valid regions of a file with {n_dead} invalid slot(s)) failed: {x}")),
+        Ok(Ok(db)) => db,
+    };
+    for (id, want) in &grown {
+        let r = db.get_region(id).ok_or_else(|| format!("region '{}' is gone after append + flush + reopen ({n_dead} invalid slot(s) in the file)", short(id)))?;
+        let got = r.create_reader().read_all().to_vec();
+        if &got != want {
+            return Err(format!(
+                "region '{}' after append + flush + reopen ({n_dead} invalid slot(s) in the file): {} bytes read, {} expected{}",
+                short(id),
+                got.len(),
+                want.len(),
+                if got.len() == want.len() { " (contents differ)" } else { "" }
+            ));
+        }
+    }
+    let loaded = db.regions().index_to_region().iter().flatten().count();
+    if loaded != grown.len() {
+        return Err(format!("{loaded} regions loaded after append + flush + reopen, {} valid slots", grown.len()));
+    }
     if n_dead > 0 && n_dead < recorded.len() {
         obs.set_nontrivial();
     }
@@ -948,7 +987,7 @@ impl Prop for P {
     }
 
     fn rule() -> String {
-        "one codec per case: region metadata slots (start/len/reserved from {small, 4096k+-1, 2^32+-1, 2^63+-1, u64::MAX-d, random}, ids of 0/1/../1023/1024/1025/4064 bytes, ASCII / multi-byte / non-UTF-8 / control, declared id length independent of the bytes), vector headers, page-index entries, value encodings of 30 types (all numeric types, byte arrays, derived wrapper, Stamp, Version), raw and base change records; each valid encoding is then left alone, truncated at a generated length, bit-flipped (biased to the fixed fields), given a boundary value in one of its length/count words, extended, or replaced by arbitrary bytes. Oracle: an independent reference decoder written from the on-disk format decides accept/refuse and the decoded fields; the library must agree exactly (accepting an invalid encoding, refusing a valid one, or decoding different fields is a violation), must not panic, and must not request a single allocation above 2x input + 512 bytes (counting global allocator). Encoders are compared byte-for-byte with the format. Open cases: a database with 1..6 regions is flushed, slots of its regions file are invalidated (zeroed, id length 1025/4064/4065/65535, non-UTF-8 id, unaligned start, reserved unaligned or < page, len > reserved, garbage) and Database::open must succeed, skip exactly the invalid slots and load the others with identical metadata and contents. Non-trivial: a mutated encoding that passes the first length check (full-size slot, >= 32-byte header, >= 16-byte page entry, change record with its four fixed words), a wrong-length value decode, or an open with both invalid and valid slots.".into()
+        "one codec per case: region metadata slots (start/len/reserved from {small, 4096k+-1, 2^32+-1, 2^63+-1, u64::MAX-d, random}, ids of 0/1/../1023/1024/1025/4064 bytes, ASCII / multi-byte / non-UTF-8 / control, declared id length independent of the bytes), vector headers, page-index entries, value encodings of 30 types (all numeric types, byte arrays, derived wrapper, Stamp, Version), raw and base change records; each valid encoding is then left alone, truncated at a generated length, bit-flipped (biased to the fixed fields), given a boundary value in one of its length/count words, extended, or replaced by arbitrary bytes. Oracle: an independent reference decoder written from the on-disk format decides accept/refuse and the decoded fields; the library must agree exactly (accepting an invalid encoding, refusing a valid one, or decoding different fields is a violation), must not panic, and must not request a single allocation above 2x input + 512 bytes (counting global allocator). Encoders are compared byte-for-byte with the format. Open cases: a database with 1..6 regions is flushed, slots of its regions file are invalidated (zeroed, id length 1025/4064/4065/65535, non-UTF-8 id, unaligned start, reserved unaligned or < page, len > reserved, garbage) and Database::open must succeed, skip exactly the invalid slots and load the others with identical metadata and contents; every loaded region is then appended to, the database flushed and reopened, and each must come back with its new length and contents. Non-trivial: a mutated encoding that passes the first length check (full-size slot, >= 32-byte header, >= 16-byte page entry, change record with its four fixed words), a wrong-length value decode, or an open with both invalid and valid slots.".into()
     }
 
     fn mandatory_labels() -> &'static [&'static str] {
